@@ -11,11 +11,11 @@
   (every finite well-formed spec: spaces, single and multi choices in all four distinct × sorted
   modes, conditional sub-spaces of any depth): first / next / iteration / no repetition / the
   iterated set is the valid set; `validate`, binding (outside F20c) and `random_dna` for every
-  spec. Still staged: the counting recurrences for multi-choices (`C11_size_Full`: proved as
-  `C11_size_partial` for specs without `num_choices > 1`) and strict monotonicity w.r.t. `DNA.__cmp__`
-  (`C11_increasing_Full`); both equalities are evaluated by the driver / the oracle on every
+  spec; strict monotonicity w.r.t. `DNA.__cmp__`. Still staged: the counting recurrences for
+  multi-choices (`C11_size_Full`: proved as `C11_size_partial` for specs without
+  `num_choices > 1`); the equality `space_size = |all|` is evaluated by the driver on every
   enumerated spec of the correspondence run, including the exhaustive small-scope family —
-  labelled as such in the evidence, not claimed as theorems.
+  labelled as such in the evidence, not claimed as a theorem.
 -/
 import PgProofs.GenoIter
 import PgProofs.GenoValid
@@ -23,6 +23,7 @@ import PgProofs.GenoValidate
 import PgProofs.GenoBind
 import PgProofs.GenoRandom
 import PgProofs.GenoOdo3
+import PgProofs.GenoIncr
 namespace Pg.Geno
 
 /-! ### Full statements -/
@@ -45,8 +46,8 @@ def C11_iter_Full : Prop :=
 def C11_size_Full : Prop :=
   ∀ g : Spec, g.finite = true → g.wf = true → g.size = some g.all.length
 
-/-- The enumeration is strictly increasing w.r.t. `DNA.__lt__` (staged; checked on the code by
-the oracle and on sampled pairs by the correspondence of `__cmp__`). -/
+/-- The enumeration is strictly increasing w.r.t. `DNA.__lt__` (and `__cmp__` never raises
+between two members). -/
 def C11_increasing_Full : Prop :=
   ∀ g : Spec, g.finite = true → g.wf = true → g.all.Pairwise (fun a b => DNA.lt a b = true)
 
@@ -108,6 +109,11 @@ theorem C11_all_nodup (g : Spec) (hf : g.finite = true) (hw : g.wf = true) : g.a
 stops (`next_dna` of the last one is `None`). -/
 theorem C11_iter : C11_iter_Full :=
   fun g hf hw fuel h => iter_eq_all (specOk_all g hf hw) fuel h
+
+/-- The members are enumerated (hence iterated, by `C11_iter`) in strictly increasing order of
+`DNA.__lt__`. -/
+theorem C11_increasing : C11_increasing_Full :=
+  fun g hf _ => all_increasing g hf
 
 /-- … hence the iterated DNAs are pairwise different and form precisely the set of DNAs that
 satisfy the constraints. -/
